@@ -335,6 +335,23 @@ end AT
 
 /-! ### one public call -/
 
+/-- the `ins` step alone (used twice: `p_tree_insert`, and the replace path of an insert under allocation failure) -/
+theorem avlStep_refines_ins [TransCmp cmp] (k : κ) (v : ν) (t : AT κ ν) (n : Int)
+    (ho : t.toBT.Ordered cmp) (hi : t.Inv) (hn : n = t.toList.length) :
+    ∃ t' n', avlStep cmp (t, n) (.ins k v) = some ((t', n'), (specStep cmp t.toList (.ins k v)).2) ∧
+      t'.toList = (specStep cmp t.toList (.ins k v)).1 ∧ t'.Inv ∧ t'.toBT.Ordered cmp ∧
+      n' = ((specStep cmp t.toList (.ins k v)).1.length : Int) := by
+  have hs : SM.Sorted cmp t.toList := ho
+  obtain ⟨t', g, h1, h2, h3, -, -⟩ := AT.ins_spec (cmp := cmp) t k v hs hi
+  have hlen := SM.length_insert hs k v
+  have hn' : (if (SM.find cmp t.toList k).isNone then n + 1 else n) =
+      ((SM.insert cmp t.toList k v).length : Int) := by
+    rw [hlen, hn]; split <;> simp
+  refine ⟨t', (SM.insert cmp t.toList k v).length, ?_, h2, h3, ?_, rfl⟩
+  · simp only [avlStep, h1, Option.map_some, specStep, hn']
+  · show SM.Sorted cmp t'.toList
+    rw [h2]; exact SM.sorted_insert hs k v
+
 theorem avlStep_refines [TransCmp cmp] (op : Op κ ν) (t : AT κ ν) (n : Int) (l : List (κ × ν))
     (ho : t.toBT.Ordered cmp) (hi : t.Inv) (hl : t.toList = l) (hn : n = l.length) :
     ∃ t' n', avlStep cmp (t, n) op = some ((t', n'), (specStep cmp l op).2) ∧
@@ -343,16 +360,22 @@ theorem avlStep_refines [TransCmp cmp] (op : Op κ ν) (t : AT κ ν) (n : Int) 
   subst hl
   have hs : SM.Sorted cmp t.toList := ho
   cases op with
-  | ins k v =>
-    obtain ⟨t', g, h1, h2, h3, -, -⟩ := AT.ins_spec (cmp := cmp) t k v hs hi
-    have hlen := SM.length_insert hs k v
-    have hn' : (if (SM.find cmp t.toList k).isNone then n + 1 else n) =
-        ((SM.insert cmp t.toList k v).length : Int) := by
-      rw [hlen, hn]; split <;> simp
-    refine ⟨t', (SM.insert cmp t.toList k v).length, ?_, h2, h3, ?_, rfl⟩
-    · simp only [avlStep, h1, Option.map_some, specStep, hn']
-    · show SM.Sorted cmp t'.toList
-      rw [h2]; exact SM.sorted_insert hs k v
+  | ins k v => exact avlStep_refines_ins k v t n ho hi hn
+  | insf k v =>
+    have hp : (t.toBT.lookup cmp k).isSome = (SM.find cmp t.toList k).isSome := BT.lookup_isSome t.toBT ho k
+    by_cases hf : (SM.find cmp t.toList k).isSome = true
+    · have e1 : avlStep cmp (t, n) (.insf k v) = avlStep cmp (t, n) (.ins k v) := by
+        simp only [avlStep, hp, hf, if_true]
+      have e2 : specStep cmp t.toList (.insf k v) = specStep cmp t.toList (.ins k v) := by
+        simp only [specStep, hf, if_true]
+      rw [e1, e2]
+      exact avlStep_refines_ins k v t n ho hi hn
+    · have e1 : avlStep cmp (t, n) (.insf k v) = some ((t, n), .ins n []) := by
+        simp only [avlStep, hp, hf]; rfl
+      have e2 : specStep cmp t.toList (.insf k v) = (t.toList, .ins t.toList.length []) := by
+        simp only [specStep, hf]; rfl
+      rw [e1, e2]
+      exact ⟨t, n, by simp [hn], rfl, hi, ho, hn⟩
   | rem k =>
     obtain ⟨t', s, h1, h2, h3, -⟩ := AT.del_spec (cmp := cmp) t k hs hi
     have hlen := SM.length_erase hs k
